@@ -92,6 +92,8 @@ def run(F, chk):
     # E5: pseudonyms are numbered per ECU: every pseudonym written into a message must be data-dependent on the message's ecu
     E5 = chk.rule('E5', 'anonymiser: every APID/CTID pseudonym stored into a message derives (data provenance) from a lookup keyed by the message ECU')
     check_pseudonym_keys(F, E5)
+    E8 = chk.rule('E8', 'anonymiser: the number in a new pseudonym is exactly (size of the table it is recorded in) + 1, so no two ids of a table share a pseudonym')
+    check_pseudonym_numbers(F, E8)
     E6 = chk.rule('E6', 'plugins (rewrite excepted) store a whole extended header into a message only when it has none')
     check_ext_header_only_added(F, E6)
     E7 = chk.rule('E7', 'the file-transfer plugin returns false only for messages whose apid/ctid equal the configured ones (or none is configured)')
@@ -297,3 +299,60 @@ def check_removal_only_configured_context(F, E7):
                              witness={'block_path': ex.witness(rb, bad[0])[-40:]})
             else:
                 E7.ok(sample={'false_return_at': b.loc(b.blocks[rb].term.sp), 'only_for': 'messages whose apid and ctid equal the configured ones (or none configured)'})
+
+
+# ---------------------------------------------------------------------------------------------
+# E8: pseudonyms are numbered by table size
+
+def check_pseudonym_numbers(F, E8):
+    """"(ECU, APID, CTID) are replaced ... consistently": two different ids of one table must never get the same pseudonym.  The
+    anonymiser gets that by construction: a new id receives the number `table.len() + 1` and is then inserted, so the numbers
+    handed out are 1, 2, 3, .. without repetition.  Any other number (a counter that skips candidates, a hash, len() alone)
+    loses the argument - e.g. skipping numbers "already in use" while looking the candidate up among the *original* ids hands
+    the same number out twice.  Every integer formatted into an id (Argument::new_display of a usize that reaches
+    DltChar4::from_str) in the anonymiser and its helpers must be the single-definition value `HashMap::len(table) + 1`."""
+    n = 0
+    for b in F.order:
+        if not ((b.impl_self or '').startswith('adlt::plugins::anonymize::') or b.path.startswith('adlt::plugins::anonymize::')) or '::tests' in b.path:
+            continue
+        cfg = E = None
+        makes_id = any(blk.term.callee.path.endswith('FromStr::from_str') and 'DltChar4' in (blk.term.dest.t or '') for blk in b.calls())
+        if not makes_id:
+            continue
+        for blk in b.calls():
+            t = blk.term
+            if not (t.callee.path.endswith('Argument::<\'_>::new_display') and t.args and (t.args[0].ty or '') in ('&usize', '&u32', '&u64', '&u16')):
+                continue
+            cfg = cfg or CFG(b)
+            E = E or ExprBuilder(cfg, fold_named=True)
+            e = E.operand(t.args[0])
+            while isinstance(e, tuple) and (e[0] == 'ref' or (e[0] == 'proj' and len(e) == 2)):
+                e = e[1]
+            se = show(e)
+            if 'reception_time' in se or 'timestamp' in se:
+                continue      # the payload note, not an id
+            n += 1
+            E8.sites += 1
+            E8.fn(b.path)
+            def is_len_plus_1(e_):
+                return isinstance(e_, tuple) and e_[0] == 'bin' and e_[1] == 'Add' and e_[3] == ('const', 1) and isinstance(e_[2], tuple) and e_[2][0] == 'call' and re.search(r'HashMap::<K, V, S(, A)?>::len$', e_[2][1]) is not None
+            by_callers = False
+            if isinstance(e, tuple) and e[0] == 'place' and len(e) == 2 and b.kind != 'closure':
+                # helper `fn new_id(prefix, nr: usize)`: the number is a parameter - every caller in the module must pass table.len() + 1
+                pi = [i for i in range(1, b.arg_count + 1) if (b.name_of(i) or 'arg%d' % i) == e[1]]
+                callers = []
+                for x in F.order:
+                    if x.path.startswith('adlt::plugins::anonymize::') or (x.impl_self or '').startswith('adlt::plugins::anonymize::'):
+                        xcfg = xE = None
+                        for xb in x.calls():
+                            if (xb.term.callee.resolved or xb.term.callee.path) == b.path:
+                                xcfg = xcfg or CFG(x)
+                                xE = xE or ExprBuilder(xcfg, fold_named=True)
+                                callers.append(xE.operand(xb.term.args[pi[0] - 1]) if pi and len(xb.term.args) >= pi[0] else None)
+                by_callers = bool(pi) and bool(callers) and all(is_len_plus_1(c_) for c_ in callers)
+            if is_len_plus_1(e) or by_callers:
+                E8.ok(sample={'function': b.path, 'pseudonym_number': se[:90], 'at': b.loc(t.sp)})
+            else:
+                E8.violation(('pseudonym-number-not-table-size', b.path), '%s formats %s into a new pseudonym at %s: not the single value `table.len() + 1` - without that the numbers handed out are no longer guaranteed distinct, two different ids can receive the same pseudonym' %
+                             (b.path, se[:70], b.loc(t.sp)), where=b.loc(t.sp))
+    E8.floor('numbers formatted into pseudonyms', n, 1)
